@@ -106,6 +106,9 @@ def scenarios(prop, tier):
         S.append(("get3-abandon", gets(3, consume=["none", ("chunks", 1), "all"]), dict(), {}))
         S.append(("get3-down2", gets(3), dict(settings=[{"mcs": 2}]), {}))
         S.append(("get2-zero-then-100", gets(2), dict(settings=[{"mcs": 0}, {"mcs": 100}]), {}))
+        # a later SETTINGS frame that does NOT mention MAX_CONCURRENT_STREAMS leaves the advertised limit alone
+        S.append(("get6-init2-then-iws-only", gets(6), dict(init_settings={SC.MAX_CONCURRENT_STREAMS: 2}, settings=[{"iws": 70000}]), {}))
+        S.append(("get5-down2-then-mfs-only", gets(5), dict(settings=[{"mcs": 2}, {"mfs": 20000}]), {}))
         if not quick:
             S.append(("get5-init2-down1-up3", gets(5), dict(init_settings={SC.MAX_CONCURRENT_STREAMS: 2}, settings=[{"mcs": 1}, {"mcs": 3}]), {}))
             S.append(("get4-rst1-rst5", gets(4), dict(rst=[1, 5]), {}))
@@ -117,6 +120,14 @@ def scenarios(prop, tier):
         # the response head arrives while the upload is blocked on its window, the credit afterwards
         S.append(("up12-iws5-early-head", uploads([12]), dict(init_settings={SC.INITIAL_WINDOW_SIZE: 5}, window=5, wu_unit=3, early_head=True), {}))
         S.append(("up9+up9-iws3-early-head", uploads([9, 9]), dict(init_settings={SC.INITIAL_WINDOW_SIZE: 3}, window=3, wu_unit=2, early_head=True), {}))
+        # uploads on a WARM connection: a first GET makes the client read and acknowledge the server's
+        # SETTINGS, so the small windows bind it from the first DATA frame on
+        W = dict(start_after_ack=True)
+        S.append(("warm+up12-iws5", uploads([None, 12]), dict(init_settings={SC.INITIAL_WINDOW_SIZE: 5}, window=5, wu_unit=3, **W), {}))
+        S.append(("warm+up12-iws5-early-head", uploads([None, 12]), dict(init_settings={SC.INITIAL_WINDOW_SIZE: 5}, window=5, wu_unit=3, early_head=True, **W), {}))
+        S.append(("warm+up9+up9-iws3", uploads([None, 9, 9]), dict(init_settings={SC.INITIAL_WINDOW_SIZE: 3}, window=3, wu_unit=2, **W), {}))
+        S.append(("warm+up9+up9-iws3-early-head", uploads([None, 9, 9]), dict(init_settings={SC.INITIAL_WINDOW_SIZE: 3}, window=3, wu_unit=2, early_head=True, **W), {}))
+        S.append(("warm+up20-iws7-then-12-then-2", uploads([None, 20]), dict(init_settings={SC.INITIAL_WINDOW_SIZE: 7}, settings=[{"iws": 12}, {"iws": 2}], window=7, wu_unit=5, **W), {}))
         S.append(("up0-up1", uploads([0, 1]), dict(), {}))
         S.append(("up65535", uploads([65535]), dict(), {}))
         S.append(("up65536", uploads([65536]), dict(window=65535, wu_unit=70000), {}))
